@@ -17,7 +17,7 @@ func init() {
 			if tier == "thorough" {
 				o = "both orientations"
 			}
-			return map[string]interface{}{"algebra": "all real entries", "inverse": "all real M with |det| >= 1e-3", "primaries": o, "luminance": "the four built-in primary sets with free luminances in [0.25,4] for the white point and each primary (the general-triangle harness fixes YY = 1)", "singular": "zero column (3 cases), columns 0=1, 1=2; float64 entries in [-4,4]", "outside": "TransformFromXYZ*TransformToXYZ = I is not machine-checked for generated matrices (non-singularity of the generated matrix is undecided within the time limit); it follows from (2) whenever Inverse does not panic; equal columns 0=2"}
+			return map[string]interface{}{"algebra": "all real entries", "inverse": "all real M with |det| >= 1e-3", "primaries": o, "luminance": "the four built-in primary sets with free luminances in [0.25,4] for the white point and each primary (the general-triangle harness fixes YY = 1); the same primaries requested twice with different white points", "singular": "zero column (3 cases), columns 0=1, 1=2; float64 entries in [-4,4]", "outside": "TransformFromXYZ*TransformToXYZ = I is not machine-checked for generated matrices (non-singularity of the generated matrix is undecided within the time limit); it follows from (2) whenever Inverse does not panic; equal columns 0=2"}
 		},
 		Runs: func(tier string, seed int64) []*Run {
 			orient := int64(1)
@@ -30,6 +30,7 @@ func init() {
 				{H: sym.Harness{Pkg: "matrix", Func: "VerifHarness_C20_Singular", Cfg: sym.Config{OneShotAll: true, OneShotAsserts: true}, TimeoutMs: 300000, Workers: 5}, ExpectReach: []string{"singular-tried"}, SamplePaths: 2},
 				{H: sym.Harness{Pkg: "ciexyz", Func: "VerifHarness_C20_Primaries", Cfg: exact, TimeoutMs: 300000, Workers: 2, SetGlobals: map[string]int64{"verifC20Orient": orient}}, ExpectReach: []string{"matrix-built"}},
 				{H: sym.Harness{Pkg: "ciexyz", Func: "VerifHarness_C20_Luminance", Cfg: exact, TimeoutMs: 120000}, ExpectReach: []string{"luminance-built"}},
+				{H: sym.Harness{Pkg: "ciexyz", Func: "VerifHarness_C20_Repeat", Cfg: exact, TimeoutMs: 120000}, ExpectReach: []string{"repeated"}},
 				{H: sym.Harness{Pkg: "matrix", Func: "VerifHarness_C20_NegControl", Cfg: exact}, NegControl: true},
 			}
 			if tier == "thorough" {
